@@ -2,6 +2,7 @@ package props
 
 import (
 	"fmt"
+	"strings"
 
 	"verif/internal/h"
 	"verif/internal/ir"
@@ -218,6 +219,32 @@ func checkC12(c *h.Check) {
 			}
 		}
 	}
+	// the value and the pointer form of one wire.Struct provider consumed in one injector by two different providers:
+	// the one holding the pointer writes through it (listed and unlisted fields); the struct value handed to the other
+	// one must not see those writes (two separately built structs), in both argument orders of the last provider
+	for _, sel := range [][]string{{"A"}, {"*"}, {}} {
+		for order := 0; order < 2; order++ {
+			b := ir.NewBuilder()
+			p := b.Root
+			agg, provs := buildAgg(b, c12Shapes()[0])
+			mid, r := b.Leaf(p, "Mid"), b.Leaf(p, "R")
+			pmid := ir.FuncItem(&ir.Func{Pkg: p, Name: "PMid", Params: []*ir.Type{ir.Ptr(agg)}, Out: mid, Extra: "a0.A.ID = 4242; a0.D.ID = 4243"})
+			si, mi := 0, 1
+			deps := []*ir.Type{agg, mid}
+			if order == 1 {
+				si, mi = 1, 0
+				deps = []*ir.Type{mid, agg}
+			}
+			_ = mi
+			pr := ir.FuncItem(&ir.Func{Pkg: p, Name: "PR", Params: deps, Out: r, Extra: fmt.Sprintf("if a%d.A.ID == 4242 || a%d.D.ID == 4243 { vt.Note(\"FAIL the struct value shares its storage with the pointer form of the same provider\") }", si, si)})
+			items := []*ir.Item{ir.StructItem(agg, sel...), pmid, pr}
+			if len(sel) > 0 {
+				items = append(items, ir.SetRef(&ir.Set{Pkg: p, Name: "FieldSet", Items: provs}))
+			}
+			inj := &ir.Injector{Name: "Init", Out: r, Items: items}
+			add(fmt.Sprintf("C12/struct-both-forms-independent/sel=%s/order=%d", strings.Join(sel, "+"), order), &ir.Program{Root: p, Injectors: []*ir.Injector{inj}})
+		}
+	}
 	for order := 0; order < 2; order++ {
 		for ptr := 0; ptr < 2; ptr++ {
 			add(fmt.Sprintf("C12/two-selections/order=%d/ptr=%d", order, ptr), twoSelectionsProgram(order, ptr == 1))
@@ -319,7 +346,7 @@ func checkC12(c *h.Check) {
 		}
 	}
 	results := c.JudgeAll(cases)
-	stdCoverage(c, cases, results, "pointer- and slice-typed fields selected from a pointer parent (value, pointer to the field, both); fields selected from two parents of which the second has an unlisted namesake; a struct with a *T field next to a T field selected from a value and from a pointer parent (both: two sources for *T; one: that one); four injectors in one package selecting different same-typed fields of one struct; 6 struct shapes (exported/unexported/embedded/prevented fields; tagged fields; pairs and triples of names differing only in letter case) x wire.Struct with every subset of names, \"*\", an unknown name, \"*\" followed by an unknown or a known name x consumers {S, *S, both}; wire.FieldsOf with every non-empty subset and an unknown name x {new(S), new(*S)} x struct {provided by a function, handed in as an injector argument} x consumers of {field type, pointer to field, pointer plus parent with an aliasing probe that compares addresses and writes through the pointer}. Oracle: prevented/unknown names rejected; accepted programs run and the constructed struct is described field by field (selected fields carry the designated identities, all others zero); selected fields equal the parent's fields. Distinct = distinct rendered source.")
+	stdCoverage(c, cases, results, "pointer- and slice-typed fields selected from a pointer parent (value, pointer to the field, both); fields selected from two parents of which the second has an unlisted namesake; a struct with a *T field next to a T field selected from a value and from a pointer parent (both: two sources for *T; one: that one); four injectors in one package selecting different same-typed fields of one struct; 6 struct shapes (exported/unexported/embedded/prevented fields; tagged fields; pairs and triples of names differing only in letter case) x wire.Struct with every subset of names, \"*\", an unknown name, \"*\" followed by an unknown or a known name x consumers {S, *S, both}; wire.FieldsOf with every non-empty subset and an unknown name x {new(S), new(*S)} x struct {provided by a function, handed in as an injector argument} x consumers of {field type, pointer to field, pointer plus parent with an aliasing probe that compares addresses and writes through the pointer}. Oracle: prevented/unknown names rejected; accepted programs run and the constructed struct is described field by field (selected fields carry the designated identities, all others zero); selected fields equal the parent's fields. Value and pointer form of one wire.Struct provider consumed by two providers of one injector, the pointer holder writing through it: the value must not see the writes. Distinct = distinct rendered source.")
 	c.Coverage["model_verdict_classes"] = kinds.summary()
 	sampleCase(c, cases, results)
 	if kinds["model:accept"] < 50 || kinds["model:bad-field"] < 20 {
